@@ -4,7 +4,8 @@ Families: uart_tx (RS232PHYTX against an independent pin-level receiver), uart_r
 ideal transmitter on its own skewed clock with sub-cycle phase and edge-resolution faults, bad stop bits),
 spi (SPIMaster raw/aligned against a mode-0 device model, start timing vs divider phase, overlapping
 commands, manual CS, loopback), timer (Timer through a real CSRBank: one-shot, periodic, stop, latch),
-watchdog (feed/enable/pause/saturation), pwm."""
+watchdog (feed/enable/pause/saturation), pwm, i2c (I2CMaster through its Wishbone registers against an open-drain bus with a
+slave model and a START/STOP/bit decoder: props/c19_i2c.py)."""
 import hashlib
 
 from dsim import prng
@@ -28,21 +29,25 @@ ASSUMPTIONS = [
     "UART TX edge tolerance +-1 system cycle around k*2^32/tuning_word from the start edge",
     "SPI device model needs clk_divider >= 4 to answer (one system cycle after the falling edge); smaller dividers are checked "
     "with loopback and MOSI/CLK/CS only",
+    "I2C: half period >= 2 system cycles (load >= 1: the core moves SDA one cycle after an SCL edge), no clock stretching by the slave "
+    "(the core does not support it), one command per register write (compound commands are a documented TODO of the core); "
+    "overlapping commands (a write while a transfer runs) are checked for bus legality, timing and return to idle only",
     "Timer: the event raised in the very first cycles after reset (count is zero at reset) is not compared (software clears "
     "pending before use)",
 ]
 COMPONENTS = {"real": ["litex.soc.cores.uart.RS232PHYTX/RS232PHYRX/RS232ClkPhaseAccum", "litex.soc.cores.spi.spi_master.SPIMaster",
+                       "litex.soc.cores.i2c.I2CMaster/I2CMasterMachine/I2CClockGen (through its Wishbone registers)",
                        "litex.soc.cores.timer.Timer", "litex.soc.cores.watchdog.Watchdog", "litex.soc.cores.pwm.PWM",
                        "litex.soc.interconnect.csr_bus.CSRBank", "litex.gen.sim.core.Simulator (MultiReg lowered normally)"],
-              "stub": ["pin-level UART peer (skewed clock, phase, edge resolution)", "SPI device model", "software (CSR master)",
+              "stub": ["pin-level UART peer (skewed clock, phase, edge resolution)", "SPI device model", "I2C open-drain bus (Tristate lowering), slave model and bus monitor", "software (CSR master)",
                        "tracer shim", "clock source"]}
 CHUNK = 4
 
 
 def plan(tier):
     if tier == "quick":
-        return [("uart_tx", 40), ("uart_rx", 50), ("spi", 80), ("timer", 60), ("watchdog", 40), ("pwm", 20), ("timeline", 60)]
-    return [("uart_tx", 1500), ("uart_rx", 2500), ("spi", 4000), ("timer", 3000), ("watchdog", 2000), ("pwm", 500), ("timeline", 2000)]
+        return [("uart_tx", 40), ("uart_rx", 50), ("spi", 80), ("timer", 60), ("watchdog", 40), ("pwm", 20), ("timeline", 60), ("i2c", 120)]
+    return [("uart_tx", 1500), ("uart_rx", 2500), ("spi", 4000), ("timer", 3000), ("watchdog", 2000), ("pwm", 500), ("timeline", 2000), ("i2c", 6000)]
 
 
 def generate(family, rng, tier):
@@ -111,6 +116,9 @@ def generate(family, rng, tier):
             chg.append({"at": t, "period": per, "width": rng.choice([0, 1, per // 2, per, per + 1]), "enable": int(rng.random() < 0.85)})
             t += rng.choice([20, 40, 64])
         return {"family": family, "params": {}, "changes": chg, "ncyc": t + 40}
+    if family == "i2c":
+        from props import c19_i2c
+        return c19_i2c.generate(rng, tier)
     if family == "timeline":
         last = rng.choice([1, 2, 3, 4, 5, 7, 8, 9, 15, 16, 17])
         times = sorted(set([rng.choice([0, 1]), last] + [rng.randint(0, last) for _ in range(rng.randint(0, 3))]))
@@ -119,6 +127,9 @@ def generate(family, rng, tier):
 
 
 def run(scn):
+    if scn["family"] == "i2c":
+        from props import c19_i2c
+        return c19_i2c.run(scn, mkV, _result)
     return {"timeline": run_timeline, "uart_tx": run_uart_tx, "uart_rx": run_uart_rx, "spi": run_spi, "timer": run_timer, "watchdog": run_watchdog,
             "pwm": run_pwm}[scn["family"]](scn)
 
